@@ -113,7 +113,13 @@ class SArr(list):
 
     def __setitem__(self, i, v):
         if isinstance(i, slice):
-            raise HarnessError('slice store')
+            idx = range(*i.indices(len(self)))
+            vals = list(v) if isinstance(v, (list, tuple, SArr, _np.ndarray)) else [v] * len(idx)
+            if len(vals) != len(idx):
+                raise HarnessError('slice store of different length')
+            for j, x in zip(idx, vals):
+                self[j] = x
+            return
         if isinstance(i, tuple):
             raise HarnessError('tuple index')
         if self and isinstance(list.__getitem__(self, 0), SArr):
